@@ -37,6 +37,65 @@ def _verify(key):
     return json.loads(json.dumps(d, default=str))
 
 
+JOB_TIMEOUT_S = {'quick': 900, 'thorough': 3600}
+
+
+def _job(key, conn):
+    try:
+        conn.send(_verify(key))
+    except BaseException as e:      # never let a worker die silently
+        import traceback
+        conn.send({'__crash__': '%s: %s\n%s' % (e.__class__.__name__, e, traceback.format_exc())})
+    finally:
+        conn.close()
+
+
+def _empty_report(key, undecided=None, crash=None):
+    return {'key': key, 'qualname': key, 'clauses': {}, 'paths': 0, 'normal_paths': 0, 'exc_paths': 0, 'queries': 0,
+            'solver_time': 0.0, 'wall': 0.0, 'undecided': [undecided] if undecided else [], 'crash': crash, 'inlined': [],
+            'contracts_used': [], 'lib_used': [], 'reachable_exit': False, 'requires_sat': None, 'exc_kinds': {}, 'source': {}}
+
+
+def run_jobs(jobs, nproc, timeout_s):
+    """one forked process per contract, at most nproc at a time, each under a hard wall-clock limit
+    (a solver call that ignores its own timeout must not hang the check: the function is then UNDECIDED)"""
+    ctx = mp.get_context('fork')
+    pending = list(jobs)
+    running = {}
+    reports = {}
+    while pending or running:
+        while pending and len(running) < nproc:
+            k = pending.pop(0)
+            pc, cc = ctx.Pipe(duplex=False)
+            p = ctx.Process(target=_job, args=(k, cc))
+            p.start()
+            cc.close()
+            running[k] = (p, pc, time.time())
+        done = []
+        for k, (p, pc, t0) in running.items():
+            if pc.poll(0.02):
+                try:
+                    r = pc.recv()
+                except EOFError:
+                    r = {'__crash__': 'worker died without a result'}
+                if '__crash__' in r:
+                    r = _empty_report(k, crash=r['__crash__'])
+                reports[k] = r
+                p.join(5)
+                done.append(k)
+            elif not p.is_alive():
+                reports[k] = _empty_report(k, crash='worker exited with code %s without a result' % p.exitcode)
+                done.append(k)
+            elif time.time() - t0 > timeout_s:
+                p.kill()
+                p.join(5)
+                reports[k] = _empty_report(k, undecided='verification of this function exceeded the hard limit of %d s' % timeout_s)
+                done.append(k)
+        for k in done:
+            running.pop(k)
+    return {k: reports[k] for k in jobs}
+
+
 def closure_of(dsl, prop):
     """contracts of the property + the contracts they use modularly (assume-guarantee closure)"""
     keys = [k for k in dsl.ORDER if prop in dsl.REGISTRY[k].props]
@@ -134,10 +193,7 @@ def main(argv=None):
     if not jobs:
         print('no contracts registered for %s' % prop)
         return 3
-    ctx = mp.get_context('fork')
-    with ctx.Pool(min(a.jobs, len(jobs))) as pool:
-        reports = pool.map(_verify, jobs, chunksize=1)
-    reports = dict(zip(jobs, reports))
+    reports = run_jobs(jobs, min(a.jobs, len(jobs)), JOB_TIMEOUT_S[a.tier if a.tier in JOB_TIMEOUT_S else 'quick'])
     if a.tier == 'thorough':
         from pyvc import thorough
         extra = thorough.run(prop, dsl, reports, seed, a.jobs)
